@@ -12,28 +12,46 @@ theorem isSpaceChar_ne_semi {c : Char} (h : isSpaceChar c = true) : (c == ';') =
   simp only [isSpaceChar, Bool.or_eq_true, beq_iff_eq] at h
   rcases h with h | h <;> subst h <;> decide
 
+theorem isSpaceChar_not_quote {c : Char} (h : isSpaceChar c = true) : isQuote c = false := by
+  simp only [isSpaceChar, Bool.or_eq_true, beq_iff_eq] at h
+  rcases h with h | h <;> subst h <;> decide
+
+theorem isPunct_not_quote {c : Char} (h : isPunct c = true) : isQuote c = false := by
+  cases hq : isQuote c
+  · rfl
+  · simp only [isQuote, Bool.or_eq_true, beq_iff_eq] at hq
+    rcases hq with hq | hq <;> subst hq <;> exact absurd h (by decide)
+
+theorem isTokChar_not_quote {c : Char} (h : isTokChar c = true) : isQuote c = false := by
+  cases hq : isQuote c
+  · rfl
+  · simp only [isQuote, Bool.or_eq_true, beq_iff_eq] at hq
+    rcases hq with hq | hq <;> subst hq <;> exact absurd h (by decide)
+
 /-- blanks with an empty current word are skipped -/
 theorem tokenizeAux_spaces (ws rest : List Char) (acc : List String)
     (h : ∀ c ∈ ws, isSpaceChar c = true) :
-    tokenizeAux (ws ++ rest) [] acc = tokenizeAux rest [] acc := by
+    tokenizeAux none (ws ++ rest) [] acc = tokenizeAux none rest [] acc := by
   induction ws with
   | nil => rfl
   | cons c ws ih =>
     have hc := h c (List.mem_cons_self ..)
     have ih := ih (fun x hx => h x (List.mem_cons_of_mem _ hx))
-    simp only [List.cons_append, tokenizeAux, isSpaceChar_ne_semi hc, hc, List.isEmpty_nil,
-      if_true, Bool.false_eq_true, if_false]
+    simp only [List.cons_append, tokenizeAux, isSpaceChar_ne_semi hc, isSpaceChar_not_quote hc, hc,
+      List.isEmpty_nil, if_true, Bool.false_eq_true, if_false]
     exact ih
 
-/-- everything from the first `;` on is ignored -/
-theorem tokenizeAux_comment (s c cur : List Char) (acc : List String) (h : ∀ x ∈ s, x ≠ ';') :
-    tokenizeAux (s ++ ';' :: c) cur acc = tokenizeAux s cur acc := by
+/-- everything from the first `;` outside a quoted literal on is ignored -/
+theorem tokenizeAux_comment (s c cur : List Char) (acc : List String)
+    (h : ∀ x ∈ s, x ≠ ';' ∧ isQuote x = false) :
+    tokenizeAux none (s ++ ';' :: c) cur acc = tokenizeAux none s cur acc := by
   induction s generalizing cur acc with
   | nil => simp [tokenizeAux]
   | cons x s ih =>
-    have hx : (x == ';') = false := by simpa using h x (List.mem_cons_self ..)
+    have hx : (x == ';') = false := by simpa using (h x (List.mem_cons_self ..)).1
+    have hq := (h x (List.mem_cons_self ..)).2
     have ih := fun cur acc => ih cur acc (fun y hy => h y (List.mem_cons_of_mem _ hy))
-    simp only [List.cons_append, tokenizeAux, hx, Bool.false_eq_true, if_false]
+    simp only [List.cons_append, tokenizeAux, hx, hq, Bool.false_eq_true, if_false]
     split
     · exact ih ..
     · split
@@ -42,35 +60,38 @@ theorem tokenizeAux_comment (s c cur : List Char) (acc : List String) (h : ∀ x
 
 /-- plain word characters are collected into the current word -/
 theorem tokenizeAux_word (w rest cur : List Char) (acc : List String)
-    (h : ∀ c ∈ w, isPunct c = false ∧ c ≠ ';' ∧ isSpaceChar c = false) :
-    tokenizeAux (w ++ rest) cur acc = tokenizeAux rest (w.reverse ++ cur) acc := by
+    (h : ∀ c ∈ w, isPunct c = false ∧ c ≠ ';' ∧ isSpaceChar c = false ∧ isQuote c = false) :
+    tokenizeAux none (w ++ rest) cur acc = tokenizeAux none rest (w.reverse ++ cur) acc := by
   induction w generalizing cur with
   | nil => rfl
   | cons c w ih =>
-    obtain ⟨h1, h2, h3⟩ := h c (List.mem_cons_self ..)
+    obtain ⟨h1, h2, h3, h4⟩ := h c (List.mem_cons_self ..)
     have h2' : (c == ';') = false := by simpa using h2
     have ih := ih (c :: cur) (fun y hy => h y (List.mem_cons_of_mem _ hy))
-    simp only [List.cons_append, tokenizeAux, h1, h2', h3, Bool.false_eq_true, if_false]
+    simp only [List.cons_append, tokenizeAux, h1, h2', h3, h4, Bool.false_eq_true, if_false]
     rw [ih]; simp
 
-/-- the rest of the line starts with a delimiter (or is empty) -/
-def Delim (r : List Char) : Prop := ∀ c, r.head? = some c → isSpaceChar c = true ∨ isPunct c = true
+/-- the rest of the line starts with a delimiter (or is empty): a blank, a punctuation character or
+    the opening quote of a literal -/
+def Delim (r : List Char) : Prop :=
+  ∀ c, r.head? = some c → isSpaceChar c = true ∨ isPunct c = true ∨ isQuote c = true
 
 /-- before a delimiter the current word may be flushed -/
 theorem tokenizeAux_flush (r cur : List Char) (acc : List String) (hd : Delim r) (hc : cur ≠ []) :
-    tokenizeAux r cur acc = tokenizeAux r [] (String.ofList cur.reverse :: acc) := by
+    tokenizeAux none r cur acc = tokenizeAux none r [] (String.ofList cur.reverse :: acc) := by
   have hce : cur.isEmpty = false := by cases cur <;> simp_all
   cases r with
   | nil => simp [tokenizeAux, hce]
   | cons c r =>
     simp only [tokenizeAux, hce, List.isEmpty_nil, if_true, Bool.false_eq_true, if_false]
-    rcases hd c rfl with h | h
-    · simp only [h, if_true]
+    rcases hd c rfl with h | h | h
+    · simp only [h, isSpaceChar_not_quote h, if_true, Bool.false_eq_true, if_false]
+    · simp only [h, isPunct_not_quote h, if_true, Bool.false_eq_true, if_false]
     · simp only [h, if_true]
 
 /-- a single punctuation character is a token of its own -/
 theorem tokenizeAux_punct (c : Char) (r : List Char) (acc : List String) (hp : isPunct c = true) :
-    tokenizeAux (c :: r) [] acc = tokenizeAux r [] (String.ofList [c] :: acc) := by
+    tokenizeAux none (c :: r) [] acc = tokenizeAux none r [] (String.ofList [c] :: acc) := by
   have h1 : (c == ';') = false := by
     cases h : c == ';'
     · rfl
@@ -80,10 +101,82 @@ theorem tokenizeAux_punct (c : Char) (r : List Char) (acc : List String) (hp : i
     · rfl
     · simp only [isSpaceChar, Bool.or_eq_true, beq_iff_eq] at h
       rcases h with h | h <;> subst h <;> exact absurd hp (by decide)
-  simp only [tokenizeAux, h1, h2, hp, List.isEmpty_nil, if_true, Bool.false_eq_true, if_false]
+  simp only [tokenizeAux, h1, h2, hp, isPunct_not_quote hp, List.isEmpty_nil, if_true, Bool.false_eq_true, if_false]
 
-theorem tokenizeAux_nil (acc : List String) : tokenizeAux [] [] acc = acc.reverse := by
+theorem tokenizeAux_nil (acc : List String) : tokenizeAux none [] [] acc = acc.reverse := by
   simp [tokenizeAux]
+
+/-- inside a literal every character other than the closing quote and the backslash is collected,
+    whatever it is (`;`, `,`, `:`, blanks …) -/
+theorem tokenizeAux_inside (q : Char) (body rest cur : List Char) (acc : List String) (hq : q ≠ '\\')
+    (hb : ∀ c ∈ body, c ≠ q ∧ c ≠ '\\') :
+    tokenizeAux (some (q, false)) (body ++ q :: rest) cur acc
+      = tokenizeAux none rest [] (String.ofList (cur.reverse ++ body ++ [q]) :: acc) := by
+  induction body generalizing cur with
+  | nil =>
+    have : (q == '\\') = false := by simpa using hq
+    simp [tokenizeAux, this]
+  | cons c body ih =>
+    obtain ⟨h1, h2⟩ := hb c (List.mem_cons_self ..)
+    have h1' : (c == q) = false := by simpa using h1
+    have h2' : (c == '\\') = false := by simpa using h2
+    have ih := ih (c :: cur) (fun y hy => hb y (List.mem_cons_of_mem _ hy))
+    simp only [List.cons_append, tokenizeAux, h1', h2', Bool.false_eq_true, if_false]
+    rw [ih]; simp
+
+/-- a quoted literal is one token: the opening quote, the body, the closing quote -/
+theorem tokenizeAux_quoted (q : Char) (body rest : List Char) (acc : List String) (hq : isQuote q = true)
+    (hb : ∀ c ∈ body, c ≠ q ∧ c ≠ '\\') :
+    tokenizeAux none (q :: body ++ q :: rest) [] acc
+      = tokenizeAux none rest [] (String.ofList (q :: body ++ [q]) :: acc) := by
+  have h1 : (q == ';') = false := by
+    cases h : q == ';'
+    · rfl
+    · rw [beq_iff_eq] at h; subst h; exact absurd hq (by decide)
+  have hbs : q ≠ '\\' := by
+    intro h; subst h; exact absurd hq (by decide)
+  have := tokenizeAux_inside q body rest [q] acc hbs hb
+  simp only [List.cons_append, tokenizeAux, h1, hq, List.isEmpty_nil, if_true, Bool.false_eq_true, if_false]
+  rw [this]; simp
+
+/-- the tokens already produced are only ever prepended to -/
+theorem tokenizeAux_acc_gen (m : QMode) (l cur : List Char) (acc : List String) :
+    tokenizeAux m l cur acc = acc.reverse ++ tokenizeAux m l cur [] := by
+  induction l generalizing m cur acc with
+  | nil => cases m <;> simp only [tokenizeAux] <;> split <;> simp
+  | cons c l ih =>
+    cases m with
+    | none =>
+      simp only [tokenizeAux]
+      split
+      · split <;> simp
+      · split
+        · split
+          · exact ih ..
+          · rw [ih, ih _ _ [_]]; simp
+        · split
+          · split
+            · exact ih ..
+            · rw [ih, ih _ _ [_]]; simp
+          · split
+            · split
+              · rw [ih, ih _ _ [_]]; simp
+              · rw [ih, ih _ _ [_, _]]; simp
+            · exact ih ..
+    | some qe =>
+      rcases qe with ⟨q, esc⟩
+      simp only [tokenizeAux]
+      split
+      · exact ih ..
+      · split
+        · exact ih ..
+        · split
+          · rw [ih, ih _ _ [_]]; simp
+          · exact ih ..
+
+theorem tokenizeAux_acc (l : List Char) (acc : List String) :
+    tokenizeAux none l [] acc = acc.reverse ++ tokenizeAux none l [] [] :=
+  tokenizeAux_acc_gen none l [] acc
 
 /-! ## case folding -/
 
